@@ -2,6 +2,7 @@
 import ast
 
 from .core import AnalysisError, src
+from . import logic
 from .pysym import SymExec, show, subterms
 from .rules_pyx import N, C, A
 from . import symcat as sc
@@ -347,31 +348,35 @@ def check_dispatch(lang, mod, rep, R):
     fn = mod.get('apply_binary_rules')
     w = '%s:%s apply_binary_rules' % (mod.rel, fn.lineno)
     paths = SymExec(fn, unroll=1).run()
-    ok_loop = False
-    detail = ''
+    ok_fold = False
+    detail = 'no path returns a list built from `combinators`'
+    bad = []
     for st, out in paths:
-        enter = [e for e in st.events if e[0] == 'loop-enter']
-        if not enter:
+        if out != 'return' or st.ret is None:
             continue
-        if enter[0][1] != N('combinators'):
-            detail = 'iterates %s' % show(enter[0][1])
+        r = st.ret
+        if r[0] in ('alloc',) or r == ('list', ()):
+            continue                    # the closed gate (judged by C14)
+        if not (r[0] == 'listcomp' and len(r[2]) == 1):
+            bad.append('returns %s' % show(r)[:100])
             continue
-        elem = ('elem', N('combinators'), enter[0][2].lineno)
-        calls = [e[1] for e in st.events if e[0] == 'call' and e[1][1] == elem]
-        apps = [e[1] for e in st.events if e[0] == 'call' and e[1][1][0] == 'attr' and e[1][1][2] == 'append']
-        notnone = [(c, p) for c, p, _ in st.conds if c[0] == 'cmp' and c[1] in ('is not', 'is', '!=', '==') and c[3] == C(None)]
-        if calls and notnone:
-            kept = any((c[1] in ('is not', '!=')) == p for c, p in notnone)
-            if kept:
-                ok_loop = len(apps) == 1 and apps[0][2] == (calls[0],) and out == 'return'
-                detail = 'appends %s' % [show(a[2][0])[:50] for a in apps]
-            else:
-                ok_loop_none = not apps
-    breaks = [n for n in ast.walk(fn) if isinstance(n, (ast.Break,))]
-    rets_in_loop = [n for n in ast.walk(fn) if isinstance(n, ast.Return) and any(isinstance(p, ast.For) for p in _parents(n))]
-    rep.check(ok_loop and not breaks and not rets_in_loop, R, w, mod.rel + ':apply_binary_rules:fold',
+        it, filt = r[2][0]
+        elt = r[1]
+        if it != N('combinators'):
+            bad.append('iterates %s' % show(it)[:80])
+            continue
+        is_call = elt[0] == 'call' and elt[1][0] == 'elem' and elt[1][1] == it
+        keep = [logic.formula(c) for c in filt]
+        want = logic.neg(('atom', ('isnone', elt)))
+        if is_call and keep == [want]:
+            ok_fold = True
+        else:
+            bad.append('keeps %s when %s' % (show(elt)[:60], [show(c)[:80] for c in filt]))
+    if bad:
+        detail = '; '.join(sorted(set(bad)))
+    rep.check(ok_fold and not bad, R, w, mod.rel + ':apply_binary_rules:fold',
               'apply_binary_rules tries every registered combinator and keeps every non-None result, in registry order',
-              'apply_binary_rules is not a filter-free fold over `combinators` (%s, breaks=%d, early returns=%d)' % (detail, len(breaks), len(rets_in_loop)))
+              'apply_binary_rules is not a filter-free fold over `combinators` (%s)' % detail)
     return reg
 
 
